@@ -217,6 +217,11 @@ def unstring_annotation(node: ast.expr, ctx:'model.Documentable', section:str='a
         return node
     else:
         assert isinstance(expr, ast.expr), expr
+        # The nodes parsed from the strings need their 'parent' attribute too, 
+        # it's used to tell where parentheses are required when the expression is displayed.
+        parentage = Parentage()
+        parentage.parent = getattr(node, 'parent', None)
+        parentage.visit(expr)
         return expr
 
 class _AnnotationStringParser(ast.NodeTransformer):
